@@ -27,6 +27,7 @@ class Env:
         self.guards = set()             # (dict text, key text) known to be present
         self.funopts = {}               # py name -> (dict text, key text, fun type, lambda node)
         self.tables = {}                # py name -> (table name, key text)
+        self.structs = {}               # py name of a struct parameter -> struct type name
         self.used_comps = set()
         self.counter = [0]
 
@@ -35,6 +36,7 @@ class Env:
         e.guards = set(self.guards)
         e.funopts = dict(self.funopts)
         e.tables = dict(self.tables)
+        e.structs = self.structs
         e.used_comps = self.used_comps
         e.counter = self.counter
         return e
@@ -108,6 +110,8 @@ def expr(env, node, expect=None):
         if isinstance(v, str):
             return cstr(v), ('str',)
         if isinstance(v, int) and v >= 0:
+            if expect and expect[0] in T.table and 'intlit' in T.base(expect):
+                return T.base(expect)['intlit'].format(v), expect
             return str(v), ('nat',)
         if v is None:
             if expect and expect[0] == 'option':
@@ -275,6 +279,9 @@ def attribute(env, node):
                 raise Unsupported(node, 'property %s read before its getter is translated' % node.attr)
             return call_fn(env, f, [], node), f.ret
         raise Unsupported(node, 'attribute %s of the profile object is not in the signature file' % node.attr)
+    if isinstance(node.value, ast.Name) and node.value.id in env.structs:
+        key = env.mod.struct_field(env.structs[node.value.id], node.value.id, node.attr, node)
+        return env.vars[key]
     raise Unsupported(node, 'attribute access .%s is not covered by the signature file' % node.attr)
 
 
@@ -300,6 +307,14 @@ def subscript(env, node):
     if isinstance(node.value, ast.Attribute) and is_obj(env, node.value.value) and node.value.attr in env.mod.tables:
         raise Unsupported(node, 'a reaction table may only be bound to a local and then applied')
     d, dt = expr(env, node.value)
+    if isinstance(node.slice, ast.Slice):
+        sl = node.slice
+        if dt[0] != 'list' or sl.lower is not None or sl.step is not None or sl.upper is None:
+            raise Unsupported(node, 'slice other than a[:n] of a list')
+        n, nt = expr(env, sl.upper)
+        if nt != ('nat',):
+            raise Unsupported(node, 'slice bound of type %s' % nt[0])
+        return 'firstn %s %s' % (par(n), par(d)), dt
     k, kt = expr(env, node.slice)
     if dt[0] == 'dict' and kt == ('str',):
         return getd(env, d, k, dt[1], node), dt[1]
@@ -460,6 +475,15 @@ def listcomp(env, node):
 
 def iterable(env, node):
     """what a `for` / comprehension iterates over -> (list text, element type)"""
+    if isinstance(node, ast.Call) and isinstance(node.func, ast.Name) and node.func.id == 'range' \
+            and 'range' not in env.vars and not node.keywords and len(node.args) in (1, 2):
+        args = [expr(env, a) for a in node.args]
+        if any(t != ('nat',) for _, t in args):
+            raise Unsupported(node, 'range over non-integers')
+        if len(args) == 1:
+            return 'seq 0 %s' % par(args[0][0]), ('nat',)
+        env.mod.assume(node, 'range(a, b) is seq a (b - a): empty when b <= a, as in Python')
+        return 'seq %s (%s - %s)' % (par(args[0][0]), par(args[1][0]), par(args[0][0])), ('nat',)
     txt, t = expr(env, node)
     if t[0] == 'dict':
         return 'dkeys %s' % par(txt), ('str',)
